@@ -28,6 +28,13 @@ CHECKS = {
         design="DESIGN.md §6 C02"),
 }
 
+CHECKS["C03"] = dict(
+    technique="abstract interpretation of MIR (interval refinement for the zero test, lossy-narrowing dataflow on Div results, may-depend sets) + CFG rules on the Err arm and the driver's INT(0) arm",
+    text="Decides the divide-error protocol (zero test dominates Div/Rem; MIN/-1; every narrowing cast of a quotient lossless or guarded by a dividend "
+         "test; Err => nothing modified, action returns INT(0), driver returns), that CF/OF of MUL/IMUL depend on both factors, frames of MUL/DIV and "
+         "of AAA..CWD, CBW/CWD sign dependency. Does NOT decide products, quotients or decimal-adjust results as numbers.",
+    design="DESIGN.md §6 C03")
+
 NOT_YET = {}
 
 
